@@ -33,19 +33,18 @@ SUSPECTED DEFECTS ON THE UNCHANGED TREE  (these input regions are classed "unche
         BaseWorklist().reagent_distribution("S", True, 8, "D", 1, 96, volume=50)   -> 'R;S;;;True;8;D;;;1;96;50;;1;1;0'
         BaseWorklist().reagent_distribution("S", 1, 8, "D", 1, 96, volume=True)    -> '...;96;True;;1;1;0'
         BaseWorklist().reagent_distribution("S", 1, 8, "D", 1, 96, volume=50, exclude_wells=[True]) -> '...;0;True'
-        BaseWorklist().set_diti(True) -> 'S;True'
-  * set_diti does not validate the index at all:  set_diti(2.5) -> 'S;2.5', set_diti(None) -> 'S;None', set_diti(-1) -> 'S;-1',
-        set_diti("1;2") -> 'S;1;2' (separator injected).  Only int / numpy-int indices >= 1 are checked for exact decoding.
-  * reagent_distribution does not validate diti_reuse / multi_disp:  diti_reuse=2.5, multi_disp=1.5 -> '...;2.5;1.5;0',
-        multi_disp=-3 -> '-3', diti_reuse="a;b" injects a separator.  Only int / numpy-int counts >= 1 are checked.
-  * integral floats in exclude_wells pass the range test and are written as floats:
-        reagent_distribution("S", 1, 8, "D", 1, 96, volume=50, exclude_wells=[3.0, 2]) -> '...;0;2;3.0'
+        BaseWorklist().set_diti(True) -> 'S;True'      (likewise diti_reuse=True / multi_disp=True)
   * volume -0.0 is written with a sign: aspirate_well("A", 1, -0.0) -> 'A;A;;;1;;-0.00;;;;' (R record: '-0.0')
   * an empty tip iterable gives tip mask 0: aspirate_well("A", 1, 1, tip=[]) -> 'A;A;;;1;;1.00;;;0;'
   * high-level calls with a label and an unrepresentable keyword argument leave the label behind:
         EvoWorklist().aspirate(plate, "A01", 1, label="lab", liquid_class="a;b") raises ValueError, worklist == ['C;lab']
     (the monitor uses label=None for unrepresentable pass-through arguments and, with a label, only demands that no
     A/D/R record was appended).
+REPAIRED in /repo commit 1763a12 (these regions are fully checked now: invalid values must raise and leave the worklist
+untouched, valid ones - int and numpy integers - must decode exactly):
+  * set_diti index that is not an int / numpy integer >= 0 (was: set_diti(2.5) -> 'S;2.5', set_diti("1;2") -> 'S;1;2', set_diti(-1))
+  * reagent_distribution diti_reuse / multi_disp that is not an int / numpy integer >= 1 (was: 2.5, -3, "a;b" written verbatim)
+  * excluded wells that are not ints / numpy integers (was: exclude_wells=[3.0, 2] -> '...;0;2;3.0')
 Outside the quantifier of the statement and therefore not generated: control characters (incl. line breaks) in text fields
 other than comments, str where a number is expected, str as tip.
 Known finding C01 (FluentWorklist.distribute numbers the source range EVO-style): the two source-range fields of R records
@@ -313,8 +312,10 @@ def tip_class(x):
 
 def count_class(x):
     n = num(x)
-    if n is None or n["kind"] not in ("int", "npint") or n["val"] < 1:
+    if n is not None and n["kind"] == "bool":
         return "unchecked"
+    if n is None or n["kind"] not in ("int", "npint") or n["val"] < 1:
+        return "raise"
     return "ok"
 
 
@@ -369,10 +370,10 @@ def oracle_rd(a, maxv):
             lo, hi = num(g("dst_start"))["val"], num(g("dst_end"))["val"]
             for e in els:
                 n = num(e)
-                if n is None or n["special"] or n["val"].denominator != 1 or not lo <= n["val"] <= hi:
-                    cls.append("raise")
-                elif n["kind"] not in ("int", "npint"):
+                if n is not None and n["kind"] == "bool":
                     cls.append("unchecked")
+                elif n is None or n["kind"] not in ("int", "npint") or not lo <= n["val"] <= hi:
+                    cls.append("raise")
                 else:
                     excl.append(int(n["val"]))
             if isinstance(ex, dict) and ex["$"] == "set":
@@ -424,8 +425,10 @@ def oracle_set_diti(a, before):
     if not allowed:
         return "raise", None
     n = num(a["diti_index"])
-    if n is None or n["kind"] not in ("int", "npint") or n["val"] < 1:
+    if n is not None and n["kind"] == "bool":
         return "unchecked", None
+    if n is None or n["kind"] not in ("int", "npint") or n["val"] < 0:
+        return "raise", None
     return "ok", [{"t": "S", "index": int(n["val"])}]
 
 
@@ -948,7 +951,8 @@ def gen_enumerated(tier):
     for n in list(range(1, 14)) + [96, 384, 10**6, NP("int64", 4), NP("int32", 12), NP("uint8", 7)]:
         yield P, seq([call("reagent_distribution", **dict(RD_BASE, diti_reuse=n, volume=0.5))])
         yield P, seq([call("reagent_distribution", **dict(RD_BASE, multi_disp=n, volume=0.5))])
-    for n in [0, -1, 1.5, 2.0, None, True, NAN]:  # unchecked region (see header): only 'a raise leaves the worklist untouched'
+    for n in [0, -1, -3, 1.5, 2.0, 1.0, None, True, False, NAN, INF, "a;b", "2", "", [2], -10**30, 10**30, NP("int64", 0), NP("int64", -1), NP("float64", 2.0),
+              NP("float32", 1.5), NP("uint8", 0)]:
         yield P, seq([call("reagent_distribution", **dict(RD_BASE, diti_reuse=n))])
         yield P, seq([call("reagent_distribution", **dict(RD_BASE, multi_disp=n))])
     for maxv in MAXVS:
@@ -996,7 +1000,8 @@ def gen_enumerated(tier):
             yield P, seq([call("reagent_distribution", **dict(rb, dst_start=NP("int64", lo), dst_end=NP("int32", hi), exclude_wells=[NP("int64", inside[1]), inside[0]]))])
     for ex in [[8, 9, 10], [10, 9, 8], [9, 10, 11], [99, 100, 101], [101, 100, 99], [5, 12, 30], [30, 12, 5], [95, 100, 101], [999, 1000], [1000, 999],
                [1, 10, 100, 1000], [1000, 100, 10, 1], [2, 10], [10, 2], [19, 2, 100], [3.5], [3.0, 2], [NAN], [None], ["5"], [True], [-1], [0], [1537],
-               [2, INF], 5, "5", None, [], [NP("float64", 4.0)], [NP("int64", 10), NP("int64", 9)], [[3]]]:
+               [2, INF], 5, "5", None, [], [NP("float64", 4.0)], [NP("int64", 10), NP("int64", 9)], [[3]], ["a;b"], [2, 3.0], [3.0], [1536.0], [2, "3"], [2, None],
+               [NP("float32", 7.0), 7], [False], [1, 2.0, 3], {"$": "tuple", "v": [4.0]}, {"$": "set", "v": [4.0, 5]}, {"$": "gen", "v": [9, 10.0]}]:
         yield P, seq([call("reagent_distribution", **dict(rb, dst_start=1, dst_end=1536, exclude_wells=ex))])
     for a in range(1, 13):  # every pair in 1..12 in both orders
         for b in range(1, 13):
@@ -1039,7 +1044,8 @@ def gen_enumerated(tier):
             prevs.append([call("reagent_distribution", **dict(RD_BASE, **{fld: v}))])
     prevs.append([call("reagent_distribution", **RD_BASE)])
     for prev in prevs:
-        for idx in [1, 2, 7, 10**6, NP("int64", 3)] + ([0, -1, 2.5, None, True, "1"] if len(prev) <= 1 else []):
+        for idx in [1, 2, 7, 10**6, NP("int64", 3)] + ([0, -1, 2.5, 1.0, 0.0, None, True, "1", "1;2", "a;b", "", NAN, INF, -2**40, 10**30, [1], NP("int64", 0),
+                                                         NP("int64", -2), NP("uint8", 9), NP("float64", 1.0)] if len(prev) <= 1 else [0, -1, 2.0, "1;2"]):
             for diti in (False, True):
                 yield P, seq(prev + [call("set_diti", diti_index=idx), call("set_diti", diti_index=1), call("commit"), call("set_diti", diti_index=idx)], diti=diti)
 
@@ -1256,11 +1262,11 @@ def rand_rd(rng, maxv):
         n = rng.choice([0, 1, 2, 3, 5, 10])
         ex = [rng.randint(lo, hi) for _ in range(n)] if rng.random() < 0.3 else rng.sample(range(lo, hi + 1), min(n, hi - lo + 1))
         if rng.random() < bad:
-            ex.append(rng.choice([lo - 1, hi + 1, 0, -3, lo + 0.5, hi + 100]))
+            ex.append(rng.choice([lo - 1, hi + 1, 0, -3, lo + 0.5, hi + 100, float(lo), float(hi), None, str(lo), "a;b", NAN, NP("float64", float(lo))]))
             rng.shuffle(ex)
         f = rng.random()
         kind = rng.choice(["tuple", "set", "gen", "ref", "arr"])
-        if f < 0.6 or (kind == "arr" and any(isinstance(e, float) for e in ex)):
+        if f < 0.6 or (kind in ("arr", "set") and any(not isinstance(e, int) for e in ex)):
             a["exclude_wells"] = ex
         else:
             a["exclude_wells"] = dict({"$": kind, "v": ex}, **({"id": "e"} if kind == "ref" else {"dtype": "int64"} if kind == "arr" else {}))
@@ -1276,6 +1282,8 @@ def rand_rd(rng, maxv):
         a["multi_disp"] = rng.choice([1, 2, 3, 4, 6, 8, 12, rng.randint(1, 50), NP("int64", rng.randint(1, 12))])
     if rng.random() < 0.6:
         a["diti_reuse"] = rng.choice([1, 2, 3, rng.randint(1, 20), NP("int32", rng.randint(1, 9))])
+    if rng.random() < bad:
+        a[rng.choice(["multi_disp", "diti_reuse"])] = rng.choice([0, -1, -3, 1.5, 2.0, None, "a;b", "3", NAN, NP("int64", 0), NP("float64", 2.0)])
     if rng.random() < 0.7:
         a["direction"] = rng.choice(["left_to_right", "right_to_left"]) if rng.random() >= bad else rng.choice(["", "left", "RIGHT_TO_LEFT", None, 1, "left_to_right;"])
     for k_ in RD_TEXTS[2:]:
@@ -1311,7 +1319,8 @@ def rand_seq(rng):
         elif k < 0.66:
             calls.append(rand_comment(rng))
         elif k < 0.74:
-            calls.append(call("set_diti", diti_index=rng.choice([1, 2, 3, rng.randint(1, 10**6), NP("int64", rng.randint(1, 9))])))
+            calls.append(call("set_diti", diti_index=rng.choice([0, 1, 2, 3, rng.randint(1, 10**6), NP("int64", rng.randint(0, 9)), 1, 2, rng.randint(1, 99),
+                                                                 rng.choice([-1, 1.0, 2.5, None, "1", "1;2", NAN, NP("float64", 3.0), NP("int32", -1)])])))
         elif k < 0.82:
             calls.append(call("commit"))
         elif k < 0.88:
